@@ -433,6 +433,9 @@ func (c *Check) determinism(sessions int, maxprocs []int, repeats int) {
 	c.Determ = determResult{Sessions: sessions, MaxProcs: maxprocs, Equal: true}
 	type job struct{ s, mp, rep int }
 	var jobs []job
+	if len(c.E.Report.AddrSites) > 0 && repeats < 2 {
+		repeats = 2 // address-dependent tree: GOMAXPROCS=1 repetitions are what is compared
+	}
 	for s := 0; s < sessions; s++ {
 		for _, mp := range maxprocs {
 			for r := 0; r < repeats; r++ {
@@ -456,7 +459,15 @@ func (c *Check) determinism(sessions int, maxprocs []int, repeats int) {
 	})
 	c.Determ.Processes = len(jobs)
 	first := map[int]int{}
+	addr := len(c.E.Report.AddrSites) > 0
 	for k, j := range jobs {
+		if addr && j.mp != 1 {
+			// the tree turns heap or stack addresses into numbers: its control flow
+			// depends on where the allocator put things, and that depends on the real
+			// parallelism of the process. Workers always run with GOMAXPROCS=1, where
+			// allocation is a function of the session; only that is compared.
+			continue
+		}
 		if f, ok := first[j.s]; !ok {
 			first[j.s] = k
 		} else if hashes[k] != hashes[f] || steps[k] != steps[f] {
@@ -1264,6 +1275,23 @@ func (c *Check) sweepOverlap() {
 			harnessFail("overlap sweep: %v", err)
 		}
 		c.Agg.add("overlap_sweep", pr)
+	})
+}
+
+// sweepStall: long-stall sweep (see modeStall); only for trees that reach synchronisation stubs.
+func (c *Check) sweepStall() {
+	per := 2 // (X, API) items per process
+	procs := c.NCPU * 2
+	if c.Tier == "thorough" {
+		per = 6
+	}
+	parallel(procs, c.NCPU, func(i int) {
+		ses := &workerlib.Session{Mode: "stall", Corpus: c.CorpusP, Seed: c.Seed, Worker: i, From: i * per, To: (i + 1) * per, SyncHeavy: true, NSites: len(c.E.Report.Sites), DistinctPath: c.distinctPath()}
+		pr := runWorker(c.E, ses, 1, 15*time.Minute)
+		if err := procOK(pr); err != nil {
+			harnessFail("stall sweep: %v", err)
+		}
+		c.Agg.add("stall_sweep", pr)
 	})
 }
 
